@@ -304,48 +304,139 @@ def tsan_reports(stderr):
     return out
 
 
-def run_requests(binary, reqs, jobs, timeout, env=None):
-    """run the fork-per-request harness on `jobs` interleaved chunks.  returns ({request: output line}, stderr text, problems)"""
-    chunks = [reqs[i::jobs] for i in range(jobs) if reqs[i::jobs]]
-    out, errs, probs = {}, [], []
-    lock = threading.Lock()
+# ---- bounded cost of hangs / deadlocks / crashes (budgets = measured normal times x a generous factor: a std request normally takes
+# <= 0.9 s CPU / 0.3 s wall, a ThreadSanitizer request <= 6 s CPU / 4 s wall on this machine)
+BUDGET = {"std": {"cpu1": 10, "cpu2": 30, "wall1": 30, "wall2": 30}, "tsan": {"cpu1": 60, "cpu2": 120, "wall1": 90, "wall2": 90}}
+MAX_OVERRUNS, MAX_CONFIRMATIONS, MAX_CRASHES = 6, 3, 4
 
-    def work(chunk):
-        e = dict(os.environ)
-        e.update(env or {})
+
+class Caps:
+    """shared by every stream, worker and re-run of one check run"""
+
+    def __init__(self):
+        self.lock = threading.Lock()
+        self.gate = threading.Lock()          # held by a confirmation run: no new request starts meanwhile ("alone")
+        self.overruns = self.confirmations = 0
+        self.banned, self.crashes, self.form_locks = {}, {}, {}
+        self.stopped = None
+        self.skipped = []
+
+
+def form_of(req):
+    c = req.split()[0]
+    return c.split(":", 1)[1] if c.startswith("CopyStorm:") else c
+
+
+def run_one(binary, req, env, cpu, wall):
+    """one request in its own harness process (own session: killed by its process-group id if it outlives the guards).  The harness child has
+    RLIMIT_CPU = cpu (spinning threads: 'C cpu-limit') and alarm(wall) (deadlock: all threads blocked, no CPU: 'T timeout')"""
+    e = dict(os.environ)
+    e.update(env or {})
+    e.update({"C18_CPU": str(cpu), "C18_ALARM": str(wall)})
+    try:
+        p = subprocess.Popen([binary], stdin=subprocess.PIPE, stdout=subprocess.PIPE, stderr=subprocess.PIPE, universal_newlines=True, errors="replace",
+                             env=e, start_new_session=True)
+    except Exception as ex:
+        return None, "", "cannot start the harness: %s" % ex
+    try:
+        so, se = p.communicate(req, timeout=wall + 60)
+    except subprocess.TimeoutExpired:
         try:
-            p = subprocess.run([binary], input="".join(chunk), stdout=subprocess.PIPE, stderr=subprocess.PIPE, universal_newlines=True,
-                               errors="replace", timeout=timeout, env=e)
-            lines, err = p.stdout.splitlines(), p.stderr
-        except subprocess.TimeoutExpired as ex:
-            so = ex.stdout or ""
-            lines = (so.decode("utf-8", "replace") if isinstance(so, bytes) else so).splitlines()
-            se = ex.stderr or ""
-            err = se.decode("utf-8", "replace") if isinstance(se, bytes) else se
-            with lock:
-                probs.append("a harness process did not finish within %d s (%d of %d requests answered)" % (timeout, len(lines), len(chunk)))
-        except Exception as ex:           # cannot start the binary, ...
-            lines, err = [], ""
-            with lock:
-                probs.append("harness process: %s" % ex)
-        with lock:
-            # answers are keyed by their first three tokens (class, parameter, threads), unique within one call: a child that prints twice
-            # (its line, then the parent's "X signal" for a crash in exit) cannot shift the answers of the later requests
-            bykey = {}
-            for l in lines:
-                k = tuple(l.split()[:3])
-                bykey[k] = (bykey[k] + " || " + l) if (k in bykey and bykey[k] != l) else l
-            for r in chunk:
-                k = tuple(r.split()[:3])
-                if k in bykey:
-                    out[r] = bykey[k]
-            errs.append(err)
-    ths = [threading.Thread(target=work, args=(c,)) for c in chunks]
+            os.killpg(p.pid, 9)               # our own process group only
+        except OSError:
+            pass
+        so, se = p.communicate()
+        t = req.split()
+        so = (so or "") + "%s %s %s T timeout\n" % (t[0], t[1], t[2])
+    lines = []
+    for l in (so or "").splitlines():
+        if l not in lines:
+            lines.append(l)
+    k = tuple(req.split()[:3])
+    mine = [l for l in lines if tuple(l.split()[:3]) == k]
+    return (" || ".join(mine) if mine else None), se or "", None
+
+
+def run_requests(chk, caps, binary, reqs, jobs, kind="std", env=None):
+    """drive the requests one per harness process from a shared queue.  returns ({request: answer}, stderr text).
+    An answer 'C cpu-limit' / 'T timeout' is a first-stage overrun: the request is re-run ALONE with the larger budget; reproduced -> failing input
+    `does-not-return`, and its form (class) is not driven any more in this run, in any stream; caps: MAX_OVERRUNS first-stage overruns and
+    MAX_CONFIRMATIONS confirmations per run, then every stream stops; MAX_CRASHES crashes of a form: the form is not driven any more"""
+    bud = BUDGET[kind]
+    out, errs = {}, []
+    todo = list(reqs)
+    qlock = threading.Lock()
+
+    def confirm(r, line):
+        f = form_of(r)
+        with caps.lock:
+            flock = caps.form_locks.setdefault(f, threading.Lock())
+        with flock:                                    # one confirmation per form; the others wait for its verdict
+            with caps.lock:
+                if f in caps.banned or caps.stopped:
+                    return
+                if caps.confirmations >= MAX_CONFIRMATIONS:
+                    caps.stopped = "%d confirmations of 'does not return' in this run" % caps.confirmations
+                    return
+                caps.confirmations += 1
+            with caps.gate:
+                l2, _, _ = run_one(binary, r, env, bud["cpu2"], bud["wall2"])
+            t = r.split()
+            if l2 is not None and (" C cpu-limit" in l2 or " T timeout" in l2):
+                how = "burn CPU without finishing" if " C cpu-limit" in l2 else "are all blocked (no CPU consumed: deadlock)"
+                chk.fail_input("threads:%s" % t[0], "does-not-return", {"class": t[0], "param": int(t[1]), "threads": int(t[2]), "iterations": int(t[3]), "stream": kind},
+                               "the request returns (normally within %s)" % ("0.9 s CPU / 0.3 s" if kind == "std" else "6 s CPU / 4 s"),
+                               "%s | alone, budget %d s CPU / %d s wall: %s" % (line, bud["cpu2"], bud["wall2"], l2),
+                               "the threads of this request %s: first stage %d s CPU / %d s wall, then alone %d s CPU / %d s wall; replay: echo '%s' | C18_CPU=%d C18_ALARM=%d c18_threads"
+                               % (how, bud["cpu1"], bud["wall1"], bud["cpu2"], bud["wall2"], r.strip(), bud["cpu2"], bud["wall2"]))
+                with caps.lock:
+                    caps.banned[f] = "does not return (%s)" % r.strip()
+            else:
+                inconclusive(chk, "%s run: '%s' overran the first-stage budget (%s), alone it answered '%s': not reported" % (kind, r.strip(), line, l2))
+                if l2 is not None:
+                    out[r] = l2
+
+    def work():
+        while True:
+            with qlock:
+                if not todo:
+                    return
+                r = todo.pop(0)
+            f = form_of(r)
+            with caps.lock:
+                if caps.stopped or f in caps.banned:
+                    caps.skipped.append("%s: %s (%s)" % (kind, r.strip(), caps.stopped or caps.banned.get(f)))
+                    continue
+            with caps.gate:
+                pass
+            line, err, prob = run_one(binary, r, env, bud["cpu1"], bud["wall1"])
+            with qlock:
+                errs.append(err)
+            if prob:
+                inconclusive(chk, "%s run: %s" % (kind, prob))
+                continue
+            if line is None:
+                inconclusive(chk, "%s run: no answer for '%s'" % (kind, r.strip()))
+                continue
+            if " C cpu-limit" in line or " T timeout" in line:
+                with caps.lock:
+                    caps.overruns += 1
+                    if caps.overruns > MAX_OVERRUNS and not caps.stopped:
+                        caps.stopped = "%d first-stage overruns in this run" % caps.overruns
+                confirm(r, line)
+                continue
+            if " X " in line:
+                with caps.lock:
+                    caps.crashes[f] = caps.crashes.get(f, 0) + 1
+                    if caps.crashes[f] >= MAX_CRASHES and f not in caps.banned:
+                        caps.banned[f] = "%d crashes" % caps.crashes[f]
+            out[r] = line
+    ths = [threading.Thread(target=work) for _ in range(max(1, min(jobs, len(reqs))))]
     for t in ths:
         t.start()
     for t in ths:
         t.join()
-    return out, "".join(errs), probs
+    return out, "".join(errs)
 
 
 def build_tsan(chk):
@@ -458,6 +549,19 @@ def start_builds(chk):
 
 def run_threads(chk, tier, res, builder):
     builder.join()
+    caps = Caps()
+    chk.cov["hang_handling"] = {"budgets_s": BUDGET, "max_first_stage_overruns": MAX_OVERRUNS, "max_confirmations": MAX_CONFIRMATIONS, "max_crashes_per_form": MAX_CRASHES}
+    try:
+        _run_threads(chk, tier, res, caps)
+    finally:
+        chk.cov["hang_handling"].update({"first_stage_overruns": caps.overruns, "confirmations": caps.confirmations, "forms_not_driven_any_more": caps.banned,
+                                         "streams_stopped": caps.stopped, "requests_not_driven": caps.skipped[:60], "requests_not_driven_count": len(caps.skipped)})
+        if caps.stopped or caps.banned:
+            chk.notes.append("hang / crash caps in force: %s; forms not driven any more: %s; %d requests not driven (not counted as compared)"
+                             % (caps.stopped, caps.banned, len(caps.skipped)))
+
+
+def _run_threads(chk, tier, res, caps):
     hb, log = res.get("std", (None, "build thread died"))
     n = 0
     forms = {}
@@ -470,21 +574,15 @@ def run_threads(chk, tier, res, builder):
             if "\t" in l:
                 forms[l.split("\t")[0]] = {"call_forms": l.split("\t", 1)[1], "thread_runs": 0, "tsan_runs": 0}
         reqs = thread_requests(tier)
-        out, err, probs = run_requests(hb, reqs, jobs=3, timeout=2400)
-        for pb in probs:
-            inconclusive(chk, "std::thread run: " + pb)
-        redo, cpu = [], []
+        out, err = run_requests(chk, caps, hb, reqs, jobs=3, kind="std")
+        redo = []
         for r in reqs:
             line = out.get(r)
             if line is None:
                 continue                         # not answered (a process timed out): already recorded as inconclusive
             t = r.split()
-            if " T timeout" in line:
-                inconclusive(chk, "std::thread run did not finish in time (wall clock): " + r.strip())
-                continue
-            if " C cpu-limit" in line:
-                cpu.append((r, line))
-                continue
+            if " T timeout" in line or " C cpu-limit" in line:
+                continue                         # (handled inside run_requests)
             n += 1                               # only requests that were actually compared count
             chk.count(("threads", r), True)
             if t[0] in MIXED:
@@ -497,24 +595,10 @@ def run_threads(chk, tier, res, builder):
                 chk.sample({"request": r.strip(), "observed": line})
             if not is_ok(line):
                 redo.append((r, line))
-        for r, line in cpu:
-            # CPU time is load independent: the request alone, four times the budget; still not back -> "does not return"
-            o2, _, _ = run_requests(hb, [r], jobs=1, timeout=4800, env={"C18_CPU": "1200", "C18_ALARM": "4000"})
-            l2 = o2.get(r)
-            if l2 is not None and " C cpu-limit" in l2:
-                t = r.split()
-                chk.fail_input("threads:%s" % t[0], "does-not-return", {"class": t[0], "param": int(t[1]), "threads": int(t[2]), "iterations": int(t[3])},
-                               "the request returns", "%s | alone with 1200 s of CPU: %s" % (line, l2),
-                               "the threads of this request burn CPU without finishing (300 s, then 1200 s of CPU time alone): replay: echo '%s' | c18_threads" % r.strip())
-            elif is_ok(l2):
-                n += 1
-                inconclusive(chk, "std::thread run: '%s' exceeded 300 s of CPU once, finished alone: not reported" % r.strip())
-            else:
-                inconclusive(chk, "std::thread run: '%s' exceeded the CPU budget, second run answered '%s'" % (r.strip(), l2))
         if redo:
             # a difference / crash must reproduce before it is reported: same request, twice the iterations
             again = ["%s %s %s %d%s\n" % (r.split()[0], r.split()[1], r.split()[2], 2 * int(r.split()[3]), " nocopy" if "nocopy" in r else "") for r, _ in redo]
-            out2, _, probs2 = run_requests(hb, again, jobs=min(3, len(again)), timeout=2400)
+            out2, _ = run_requests(chk, caps, hb, again, jobs=min(3, len(again)), kind="std")
             for (r, line), r2 in zip(redo, again):
                 l2 = out2.get(r2)
                 if l2 is not None and not is_ok(l2) and " T timeout" not in l2 and " C cpu-limit" not in l2:
@@ -538,10 +622,8 @@ def run_threads(chk, tier, res, builder):
         reqs.append("CopyStorm:%s 2 4 %d\n" % (c, 300 if tier == "quick" else 2000))
     for what in ("flags", "rmint", "domain"):
         reqs.append("Config:%s 1 3 1\n" % what)
-    env = {"TSAN_OPTIONS": "halt_on_error=0 exitcode=0 report_signal_unsafe=0 history_size=4", "C18_ALARM": "1500", "C18_CPU": "1500"}
-    out, err, probs = run_requests(tb, reqs, jobs=5, timeout=2400, env=env)
-    for pb in probs:
-        inconclusive(chk, "ThreadSanitizer run: " + pb)
+    env = {"TSAN_OPTIONS": "halt_on_error=0 exitcode=0 report_signal_unsafe=0 history_size=4"}
+    out, err = run_requests(chk, caps, tb, reqs, jobs=5, kind="tsan", env=env)
     if "ThreadSanitizer" in err and re.search(r"FATAL: ThreadSanitizer|ThreadSanitizer: (unexpected memory mapping|failed to)", err):
         inconclusive(chk, "ThreadSanitizer runtime unavailable in this environment", err[-300:])
     nt = 0
@@ -550,7 +632,6 @@ def run_threads(chk, tier, res, builder):
         if line is None:
             continue
         if " T timeout" in line or " C cpu-limit" in line:
-            inconclusive(chk, "ThreadSanitizer run did not finish in time: %s (%s)" % (r.strip(), line))
             continue
         nt += 1
         if r.split()[0] in MIXED:
@@ -566,7 +647,7 @@ def run_threads(chk, tier, res, builder):
     if first:
         # like a digest difference, a sanitizer report must reproduce: the requests of the reported classes once more
         again = [r for r in reqs if r.split()[0] in set(c for c, _ in first)]
-        out2, err2, _ = run_requests(tb, again, jobs=min(5, len(again)), timeout=2400, env=env)
+        out2, err2 = run_requests(chk, caps, tb, again, jobs=min(5, len(again)), kind="tsan", env=env)
         second = [(c, w, k) for c, w, k, ex, _, _ in tsan_reports(err2) if not ex]
         for (cls, klass), (where, text, kind) in first.items():
             if any(c == cls and (k == klass or w == where) for c, w, k in second):
